@@ -7,5 +7,5 @@ def run(tier, seed):
         profiles=[("nodisc", 2, 100), ("default", 2, 150), ("limits", 2, 80), ("close", 2, 80), ("async", 2, 50), ("default", 3, 40)],
         thorough_profiles=[("nodisc", 2, 1500), ("default", 2, 2500), ("limits", 2, 1000), ("close", 2, 1500), ("async", 2, 1000),
                            ("default", 3, 600), ("async", 3, 400)],
-        families=[("holdcell", 400)], thorough_families=[("holdcell", 8000)],
+        families=[("holdcell", 300), ("crosslimit", 300)], thorough_families=[("holdcell", 8000), ("crosslimit", 8000)],
         assumptions=cc.COMMON_ASSUMPTIONS)
